@@ -244,6 +244,12 @@ func FindSwitches(body ast.Node) []*ast.SwitchStmt {
 		case *ast.FuncLit:
 			return false
 		case *ast.SwitchStmt:
+			// `L: switch { default: … }` is how an inlined helper body is represented, not a switch of the source
+			if x.Tag == nil && x.Init == nil && len(x.Body.List) == 1 {
+				if cc, ok := x.Body.List[0].(*ast.CaseClause); ok && cc.List == nil {
+					return true
+				}
+			}
 			out = append(out, x)
 		}
 		return true
